@@ -242,7 +242,7 @@ class NetInterp:
                     self.not_understood(n, fn)
                 cells.append([v])
             return ("arr", cells)
-        if k == "InitListExpr" and self.record_of(n.get("ty")) is not None:
+        if k == "InitListExpr" and not is_cs_ty(n.get("ty")) and self.record_of(n.get("ty")) is not None:
             return self.aggregate(n, self.record_of(n.get("ty")), env, fn)
         if k in CONSTRUCTS or k == "InitListExpr":
             args = kids(n)
